@@ -404,6 +404,14 @@ pub fn programs(tier: &str) -> Vec<Program> {
             clients: vec![vec![Op::Acquire(cs(&["c1"])), Op::Fail, Op::Acquire(cs(&["c1"]))], vec![Op::Scavenge, Op::Acquire(cs(&["c1"])), Op::Renew]],
             jumps: vec![301],
         });
+        // a lease with one second left is live: a scavenge by somebody else must not remove it, a renewal in time keeps it
+        v.push(Program {
+            name: format!("scavenge-acquire vs renew, one second before expiry/{backend}"),
+            backend: backend.into(),
+            preexisting: false,
+            clients: vec![vec![Op::Acquire(cs(&["c1", "c2"])), Op::Renew], vec![Op::Scavenge, Op::Acquire(cs(&["c2"]))]],
+            jumps: vec![299],
+        });
     }
     if tier == "thorough" {
         let c = vec![Op::Scavenge, Op::Acquire(cs(&["c1"])), Op::Renew];
